@@ -3,7 +3,7 @@
 # detected by the quick check of its property (fresh scratch worktree per change)
 cd /verif
 fail=0
-for d in seeded/${1:-}*; do
+for d in seeded/${1:-}*/; do d=${d%/}
   pid=$(python3 -c "import json,sys;print(json.load(open('$d/meta.json'))['property'])")
   out=$(tools/try_mutation.sh /verif/$d $pid 2>&1)
   rc=$(echo "$out" | grep "check $pid rc=" | sed 's/.*rc=//')
